@@ -534,11 +534,36 @@ func c03Call[T comparable](in *c03Inputs[T], cd c03Codec[T], helper string, a []
 		}
 	case "DuplicateSlice":
 		if need(1) {
-			return c03ShowList(cd, fpgo.DuplicateSlice(in.slice(a[0])))
+			src := in.slice(a[0])
+			dup := fpgo.DuplicateSlice(src)
+			out := c03ShowList(cd, dup)
+			// "a new slice": writing through the copy must not be visible through the original
+			var zero T
+			for i := range dup {
+				dup[i] = zero
+			}
+			dup = append(dup, zero, zero, zero)
+			if !in.unchanged() {
+				out += " aliased"
+				in.checks = nil
+			}
+			return out
 		}
 	case "DuplicateMap":
 		if need(1) {
-			return c03ShowMapInt(cd, fpgo.DuplicateMap(in.mapOf(a[0])))
+			src := in.mapOf(a[0])
+			dup := fpgo.DuplicateMap(src)
+			out := c03ShowMapInt(cd, dup)
+			var zero T
+			dup[zero] = -77
+			for k := range dup {
+				dup[k] = -78
+			}
+			if !in.unchanged() {
+				out += " aliased"
+				in.checks = nil
+			}
+			return out
 		}
 	}
 	return "bad-case"
